@@ -85,6 +85,24 @@ claimed = {
   text="Decides structural clauses of 'faithful, total notation': (flagnames) the flag names the printer writes are exactly those the parser accepts for the same constants; (headers) each header GSUBn/GPOSn the parser dispatches on leads to a reader building lookup type n and the printer derives headers from the lookup type with the same prefixes; (exhaustive) all 17 subtable types the parser can build have a case in the printer's type switches; (goroutine) every goroutine closes the channel it feeds on its single exit, no range over such a channel can be left early (return/break/goto/never-returning call), and Parse's deferred recovery drains the token channel the parser reads, converts only *parseError and re-panics the rest — so no schedule leaves a goroutine blocked; (lineinfo) every lexer item carries its line; (unsignedcountdown) no unsigned down-counting loop with a >= test; (dupassign) no repeated reset statement in a reset block; (stablesort) the printer's sort by a key projection is stable. Level 'other'.",
   note="Trusted: go/types, go/ssa, 1 reviewed entry (right-to-left flag has no syntax; outside the quantifier). Not covered: equality Parse(Explain(L)) == L of contents, meaning of the documented syntax — value-level.",
   ref="DESIGN.md §3 E11, §4 C19"),
+ "C09": dict(
+  technique="static literal-table agreement (accepted formats vs decoder table; subtable preference order), panic-reachability inventory, order-sensitivity analysis, big-endian rule",
+  engine="cmaprules",
+  text="Decides structural clauses of the cmap statement: (tabformats) every subtable format cmap.Decode lets through has an entry in cmap.decoders, which is never modified, so Get/GetNoLang/GetBest never call a nil function for decoded tables (the two map-call sites are reviewed entries bound to this re-checked condition); (bestorder) GetBest's candidate list, evaluated from the literal, tries full-Unicode (3,10),(0,4) before BMP (3,1),(0,3) before legacy (1,0) and returns the first that decodes; (mapdet) Format4/Format12/Table.Encode, GetNoLang and InstallCMap do not depend on map iteration order (keys sorted with total comparators before emitting); (bigendian) all 34 multi-byte reads/writes in package cmap are big-endian; (sortfirst, narrowarith). Level 'other'.",
+  note="Trusted: go/types, go/ssa, the classification of (platform, encoding) pairs into full/BMP/legacy (spec knowledge encoded in the checker). Not covered: correctness of the format-4 segmentation and idRangeOffset arithmetic, format-12 run detection, agreement with an independent decoder — value-level (the independent seeds that change such arithmetic are not detected).",
+  ref="DESIGN.md §4 C09"),
+ "C13": dict(
+  technique="static writer/reader type agreement for CFF DICT operators on go/ssa (stored Go type vs typed getter, omitted-default vs reader default), order-sensitivity analysis, big-endian rule",
+  engine="dictpair",
+  text="Decides structural clauses of the CFF round trip: (dicttypes) for each of 33 operator writes the Go type stored (int32 from an integer, int32 cut from a float, float64, string) can carry what the reader's getter (getInt/getFloat/getString/…) extracts — a real operand truncated to int32 but read as a real, or a real read with getInt, is a violation for every font with such a value; (dictdefaults) for 16 operators the constant the writer compares with before omitting the operator equals the default the reader substitutes (by constant evaluation); (mapdet) DICT keys are sorted before encoding; (bigendian) in package cff. Level 'other'.",
+  note="Trusted: go/types, go/ssa. Not covered: numeric boundaries (INDEX offset size, real-number digits, encoding/charset/FDSelect format choice), the offset fixed-point loop, width selection — value-level; the independent seeds that move such boundaries are not detected.",
+  ref="DESIGN.md §3 E9-DICT, §4 C13"),
+ "C14": dict(
+  technique="static literal evaluation (inverse / injective tables), effect-based purity, control-dependence and shape rules on go/ssa and syntax",
+  engine="namerules",
+  text="Decides structural clauses of 'names and tags survive their encodings': (tabinverse) mac.dec and mac.enc are mutually inverse literals that are never modified; (tabinjective) name.appleBCP and name.msBCP are value-injective, as required by Encode's inverse scan (msBCP's es-ES duplicate is a listed known finding); (pure) otfToBCP47, bcp47ToOtf and the codecs keep no state between calls; (xext) otfToBCP47 adds the -x-<script>[-<lang>] extension on every successful return and bcp47ToOtf searches the non-injective tables only when a tag has no such extension; (utf16) surrogate handling is delegated to unicode/utf16 and the unit loop covers every complete unit; (macroman1) post format 1.0 is chosen only for a list of exactly the standard length; (nameids) keys() enumerates every id 0..maxID without exceptions plus Extra; bigendian in name/post/mac. Level 'other'.",
+  note="Trusted: go/types, go/ssa, effect summaries. Not covered: string-level round trips, Tables.Choose, representability of strings in Mac Roman. A hand-written UTF-16 decoder would be reported as undecided (the rule vouches only for the delegation to the standard library).",
+  ref="DESIGN.md §4 C14"),
 }
 
 pending_reason = "not claimed yet: the engines this property needs are still being built (DESIGN.md §9 build order); no check is registered until it runs exact on the unchanged tree"
@@ -124,6 +142,9 @@ engines = [
  {"name": "containerrules", "path": "sfntlint/c03.go", "serves_properties": ["C03"], "kind_free_text": "count/emit, ordering, alignment, patch guard, read-back rules for the sfnt container"},
  {"name": "parserrules", "path": "sfntlint/c17.go, sfntlint/narrow.go", "serves_properties": ["C17"], "kind_free_text": "who-may-write, atomic refill, seek-first, error/no-data rules for parser.Parser"},
  {"name": "dslagree", "path": "sfntlint/c19.go", "serves_properties": ["C19"], "kind_free_text": "parser/printer table agreement, goroutine and channel discipline, loop-shape rules (E11)"},
+ {"name": "cmaprules", "path": "sfntlint/c09.go", "serves_properties": ["C09"], "kind_free_text": "format table agreement, subtable preference order"},
+ {"name": "dictpair", "path": "sfntlint/c13.go", "serves_properties": ["C13"], "kind_free_text": "CFF DICT operator type/default agreement (E9-DICT)"},
+ {"name": "namerules", "path": "sfntlint/c14.go", "serves_properties": ["C14"], "kind_free_text": "inverse/injective literal tables, purity, x-extension, UTF-16 delegation, post/name rules (E9-TAB)"},
  {"name": "mapdet", "path": "sfntlint/mapdet.go, sfntlint/props_det.go", "serves_properties": ["C01", "C07", "C08", "C09", "C13", "C15", "C20"], "kind_free_text": "order-sensitivity analysis of map iteration, clock and scheduling sources (E5)"},
 ]
 for e in engines:
